@@ -16,22 +16,41 @@ MANIFEST = {
             "of an installed instance of the same name, uninstall, the registries incl. the class map, request routes, ticks and "
             "power events fanned out to every instance, get_open_ports, payload delivery, send): every operation moves a service or "
             "application only along the documented transitions; a lifecycle request succeeds exactly in its documented source "
-            "states with the node ON and changes nothing otherwise; restart completes at the (d+1)-th and install at the max(1,d)-th "
-            "tick delivered to the instance — stated both per instance and as ONE theorem over Node.run (refinement along any "
-            "operation sequence, ticks delivered only by apply_timestep while the node is ON or by a direct call, nothing else "
-            "touching the countdown); apply_timestep never raises on reachable states; an open port always has a RUNNING owner; a "
-            "payload gets past the running-guard, and send() hands a payload on, only for RUNNING software on an ON node (full: "
-            "every shipped receive() has the guard); the registries agree after EVERY install/uninstall sequence (full: no freshness "
-            "hypothesis) and installs/uninstalls never raise. Tie: guard tables, validators, countdown idioms, enum values, defaults, "
-            "the shipped-class table (every receive() guarded), the install guard / eviction / class-map writes / uninstall "
-            "clean-ups, the docs masking table regenerated from the source (Gen/Software.lean) with obligations C13_gen_*; "
-            "differential rig R-svc on real Computer, Server, Router, Switch and Firewall nodes over every shipped service and "
-            "application class.",
-    "note": "C13-specific: payload *processing* of each class is not modelled (only routing and the running-guard); class-specific "
-            "internals that call lifecycle methods themselves (C2Beacon closing itself on time-out, `execute` requests) are exercised "
-            "only as far as the generic requests reach; DatabaseService's nested FTPClient install is driven as two operations; "
-            "connection bookkeeping (add_connection / OVERWHELMED) is not modelled; frames are modelled for HostNode only.",
-    "technique": "Lean 4 theorems over executable lifecycle and registry models; models tied by regenerated tables and a differential rig",
+            "states with the node ON and a refused request — service OR application — leaves the whole node unchanged (on every "
+            "reachable node); restart completes at the (d+1)-th and install at the max(1,d)-th tick delivered to the instance — "
+            "stated per instance and, for services, as ONE theorem over Node.run; apply_timestep never raises on reachable states; "
+            "the registries agree after EVERY install/uninstall sequence and installs/uninstalls never raise. "
+            "RECEIVE PATH (round 3): get_open_ports, check_port_is_open, receive_payload_from_session_manager and the destination "
+            "port chosen by SessionManager.receive_frame are TRANSLATED from the source into Lean definitions on every run and "
+            "proved equal, for all arguments, to the model's functions; proved for every registry state and every payload: "
+            "get_open_ports lists a port only for RUNNING software, check_port_is_open is true exactly when RUNNING software with "
+            "that port and protocol is installed, a delivery changes the data of, and lets a payload be sent by, only software that "
+            "is RUNNING on an ON node (every other receive() answers False, changes nothing, sends nothing, leaves the shared "
+            "payload object alone) — also through HostNode.receive_frame, through Router.check_send_frame_to_session_manager "
+            "(routers, firewalls) and along any exchange between two nodes over an ideal transport. "
+            "PAYLOAD PROCESSING of DNSServer / DNSClient / NTPServer / NTPClient is modelled and proved: a DNS request is answered "
+            "with exactly the registered address or none, a reply is never answered (no endless exchange), the client caches "
+            "exactly what was answered; a lookup and an NTP time request end to end between two nodes succeed exactly when the "
+            "server and the client are RUNNING on ON nodes with the frames accepted, and otherwise change nothing. "
+            "CONNECTION BOOKKEEPING (add_connection / terminate_connection): health becomes OVERWHELMED exactly when a connection is "
+            "requested at max_sessions; the table never exceeds max_sessions. "
+            "Tie: guard tables, validators, countdown idioms, enum values, defaults, the shipped-class table (every receive() "
+            "guarded), install guard / eviction / class-map writes / uninstall clean-ups, the docs masking table, the translated "
+            "functions and the normalised bodies of the class methods the payload model follows (Gen/Software.lean, "
+            "Gen/SoftwareRecv.lean, obligations C13_gen_*); differential rigs: R-svc on real Computer, Server, Router, Switch and "
+            "Firewall nodes over every shipped class; R-recv on two real hosts joined by a real link (real receive of the four "
+            "modelled classes, real NIC/ARP/HostNode/SessionManager/SoftwareManager transport); R-conn on real instances.",
+    "note": "C13-specific: payload processing is modelled for DNS and NTP client/server only — web browser / web server, FTP client / "
+            "server, database, terminal, C2, the bots are followed only as far as routing and the running-guard; two-node exchanges are "
+            "modelled over an IDEAL transport (both nodes ON, peer's frame filter accepts; ARP, links, NIC state, ACLs are C08/C12/C18's "
+            "subject) and the rig uses instant power transitions there; the exchange started by an NTP client inside "
+            "Node.apply_timestep is modelled at its place in the per-service loop only while no power countdown is pending; "
+            "termination of the model's transport is bounded by fuel (proved: a reply is never answered; not proved: a general bound); "
+            "class-specific `execute`/`configure` requests, C2Beacon closing itself, DatabaseService's nested FTPClient install, "
+            "install timing as a single run-level theorem (services only) are not covered; router/firewall frame paths only as far "
+            "as the hand-over test to the session manager.",
+    "technique": "Lean 4 theorems over executable lifecycle, registry, receive-path and payload models; models tied by regenerated "
+                 "tables, by source-to-Lean translation of the software manager's functions and by three differential rigs",
     "design_ref": "5/C13",
 }
 MODULES = ["PrimaiteModel.Props.C13", "PrimaiteModel.Lemmas.RegistriesRep", "PrimaiteModel.Props.C13Recv"]
@@ -92,6 +111,8 @@ def _check_case(ctx: Ctx, name: str, case: dict, res: dict, model: List[str], gu
             ctx.count("install:" + ("configured" if q.split()[6] == "1" else "bare"))
         if w in ("sapi", "aapi") and q.split()[2] in ("tick", "send"):
             ctx.count(f"direct:{q.split()[2]}:{m}")
+        if w == "rframe":
+            ctx.count(f"rframe:to-router={q.split()[-1]}:{m}")
         if w in ("sreq", "areq"):
             ctx.count(f"req:{q.split()[2]}:{m}")
         elif m.startswith("recv"):
@@ -366,6 +387,9 @@ def run(ctx: Ctx):
                     ctx.sample({"case": name, "focus": case.get("focus"), "traffic": [f"{q} => {m}" for q, m in keep[:4]]}, cap=6)
     ctx.oblige("rig:R-recv (two hosts, real receive of DNS/NTP classes, real transport) agrees on every trace", "correspondence",
                wagree == len(world_cases), f"{len(world_cases) - wagree} of {len(world_cases)} traces disagree")
+    ctx.oblige("model:R-recv the model's transport never ran out of fuel and its interleaved tick equals Node.step tick", "correspondence",
+               ctx.hist.get("wmodel:overflow", 0) == 0 and ctx.hist.get("wmodel:tick-mismatch", 0) == 0,
+               f"overflow={ctx.hist.get('wmodel:overflow', 0)} tick-mismatch={ctx.hist.get('wmodel:tick-mismatch', 0)}")
 
     # -- R-conn: IOSoftware.add_connection / terminate_connection on real instances with a small max_sessions vs `Conn`
     crng = ctx.rng.fork("conn")
